@@ -83,7 +83,11 @@ that list unrelated modules).
 """ + "\n".join(rows) + "\n"
 d = os.path.join(ROOT, "DESIGN.md")
 s = open(d).read()
+tail = ""
 if "\n\n## 12. Seeded changes" in s:
-    s = s[:s.index("\n\n## 12. Seeded changes")]
-open(d, "w").write(s + text)
+    i = s.index("\n\n## 12. Seeded changes")
+    j = s.find("\n\n## 13.", i)          # later sections are kept (an earlier version of this script cut the file here and lost section 13)
+    tail = s[j:] if j >= 0 else ""
+    s = s[:i]
+open(d, "w").write(s + text.rstrip("\n") + "\n" + tail)
 print(len(rows), "seeds")
